@@ -4,7 +4,12 @@
 //! ops:  `interval <n>` then `in <t>` | `out <t>` | `sample <t>` | `consume`
 //! out:  per event `ok` | `group none` | `group <b> <e> <c>` | `delta <n>` | `panic`,
 //!       then `final <unknown|on|off> <t> <onAcc> <offAcc>`
+//!
+//! Second mode `conv` (cases whose first op line is `cfg …`): a perf.data record history with context-switch
+//! records / `sched:sched_switch` samples (op lines of `gen/perfdata.rs`) is written to a file and converted by
+//! the `samply` binary; the observable is, per thread entry, `s <t> <on|off> <weight> <cpu delta µs>`.
 use verif_harness::common::*;
+use verif_harness::gen::perfdata::{self, CsCfg, CsShape, History, Proj, Rec};
 use std::panic::{catch_unwind, AssertUnwindSafe};
 
 #[allow(dead_code)]
@@ -118,9 +123,16 @@ impl Prop for C12 {
                 v.push(Case { name: format!("unordered{k}i{interval}"), ops });
             }
         }
+        v.extend(conv_fixed_cases());
         v
     }
-    fn generate(&self, rng: &mut Rng, _tier: Tier, _index: u64) -> Vec<String> {
+    fn generate(&self, rng: &mut Rng, tier: Tier, index: u64) -> Vec<String> {
+        // every tenth (quick) / twentieth (thorough) random case is a converter-level history
+        let every = if tier == Tier::Quick { 10 } else { 20 };
+        if index % every == 0 {
+            let shape = CsShape { max_len: if tier == Tier::Quick { 60 } else { 200 }, lifecycle: rng.chance(1, 3), allow_reuse: false };
+            return perfdata::gen_cs_history(rng, &shape).to_ops();
+        }
         let interval = match rng.below(5) {
             0 => rng.range(1, 3),
             1 => rng.range(4, 40),
@@ -158,6 +170,9 @@ impl Prop for C12 {
         ops
     }
     fn execute(&self, ops: &[String], stats: &mut Stats) -> Vec<String> {
+        if ops.first().map(|l| l.starts_with("cfg ")).unwrap_or(false) {
+            return conv_execute(ops, stats);
+        }
         let mut out = Vec::new();
         let interval: u64 = ops[0].split_whitespace().nth(1).and_then(|s| s.parse().ok()).unwrap_or(1);
         let handler = ContextSwitchHandler::new(interval);
@@ -200,10 +215,91 @@ impl Prop for C12 {
         out
     }
     fn nontrivial(&self, ops: &[String], out: &[String]) -> bool {
+        if ops.first().map(|l| l.starts_with("cfg ")).unwrap_or(false) {
+            // a sample with a non-zero cpu delta or an off-CPU sample reached the profile
+            return out.iter().any(|l| {
+                let w: Vec<&str> = l.split_whitespace().collect();
+                w.len() == 5 && w[0] == "s" && (w[2] == "off" || w[4] != "0")
+            });
+        }
         // a non-zero cpu delta was handed out or an off-cpu group was emitted
         ops.len() >= 3
             && out.iter().any(|l| (l.starts_with("delta ") && l != "delta 0") || (l.starts_with("group ") && l != "group none"))
     }
+}
+
+fn conv_execute(ops: &[String], stats: &mut Stats) -> Vec<String> {
+    let Some(h) = History::from_ops(ops) else {
+        return vec!["bad-op".to_string()];
+    };
+    stats.bump("conv_cases");
+    perfdata::count_history(&h, stats);
+    if let Some(cs) = &h.cs {
+        stats.bump(&format!("conv_mode_{}", cs.word().split(':').nth(1).unwrap_or("-")));
+    }
+    let dir = perfdata::work_tmp("C12");
+    let tag = format!("c{:016x}", fnv1a(ops));
+    let out = perfdata::import_and_render(&h, Proj::Cs, &dir, &tag, stats);
+    stats.add("conv_off_cpu_samples", out.iter().filter(|l| l.starts_with("s ") && l.contains(" off ")).count() as u64);
+    out
+}
+
+fn cs_case(name: &str, letters: &str, period: u64, ref_time: u64, recs: Vec<Rec>) -> Case {
+    // a recording without the sched:sched_switch event has no such samples
+    let recs = recs.into_iter().filter(|r| letters.contains('s') || !matches!(r, Rec::Sched { .. })).collect();
+    let h = History { cs: CsCfg::parse(letters, &period.to_string()), ref_time, recs, ..Default::default() };
+    Case { name: format!("conv-{name}"), ops: h.to_ops() }
+}
+
+/// Boundary families at converter level (thread 100/101 of process 100; times in ns).
+fn conv_fixed_cases() -> Vec<Case> {
+    let (p, t) = (100u32, 101u32);
+    let sample = |tm: u64| Rec::Sample { pid: p, tid: t, t: tm, kernel: false, period: 1_000_000, ip: 0x1000, chain: vec![] };
+    let sched = |tm: u64| Rec::Sched { pid: p, tid: t, t: tm, kernel: false, ip: perfdata::OFF_STACK_BASE + 0x20, chain: vec![perfdata::CTX_USER, perfdata::OFF_STACK_BASE + 0x20, perfdata::OFF_STACK_BASE + 0x40] };
+    let sched_kernel_only = |tm: u64| Rec::Sched { pid: p, tid: t, t: tm, kernel: true, ip: 0xffff_ffff_8100_0000, chain: vec![perfdata::CTX_KERNEL, 0xffff_ffff_8100_0010] };
+    let sin = |tm: u64| Rec::SwitchIn { pid: p, tid: t, t: tm };
+    let sout = |tm: u64| Rec::SwitchOut { pid: p, tid: t, t: tm, preempt: false };
+    let b = 5_000_000u64;
+    let mut v = Vec::new();
+    // the repo's unit-test history (interval 10 µs here), every wake-up with a stored stack
+    for (letters, name) in [("cs", "unit-test"), ("c", "unit-test-nostack"), ("csw", "unit-test-wide"), ("s", "unit-test-sched-only"), ("-", "unit-test-no-indicator"), ("csh", "unit-test-hw")] {
+        let k = 1000u64;
+        v.push(cs_case(name, letters, 10 * k, b, vec![
+            sin(b), sched(b + 3 * k), sout(b + 3 * k), sin(b + 5 * k), sample(b + 12 * k), sched(b + 13 * k), sout(b + 13 * k), sin(b + 15 * k),
+            sched(b + 16 * k), sout(b + 16 * k), sin(b + 21 * k), sched(b + 23 * k), sout(b + 23 * k), sin(b + 27 * k), sched(b + 30 * k), sout(b + 30 * k),
+            sin(b + 48 * k), sample(b + 51 * k), sample(b + 61 * k),
+        ]));
+    }
+    // sleeps of exactly 0, 1, 2, 3 intervals and one ns less / more, woken by a switch-in or by a sample
+    for (i, d) in [0u64, 999_000, 1_000_000, 1_001_000, 1_999_000, 2_000_000, 2_000_001, 3_000_000, 2_500_000_000].iter().enumerate() {
+        for by_sample in [false, true] {
+            let wake = if by_sample { sample(b + 2_000_000 + d) } else { sin(b + 2_000_000 + d) };
+            v.push(cs_case(&format!("sleep{i}-{}", if by_sample { "sample" } else { "in" }), "cs", 1_000_000, b, vec![
+                sin(b), sample(b + 1_000_000), sched(b + 2_000_000), sout(b + 2_000_000), wake, sample(b + 2_000_000 + d + 500_000),
+            ]));
+        }
+    }
+    // remainder carried across sleeps: 0.6 + 0.6 intervals
+    v.push(cs_case("carry", "cs", 1_000_000, b, vec![
+        sin(b), sched(b + 100_000), sout(b + 100_000), sin(b + 700_000), sched(b + 800_000), sout(b + 800_000), sin(b + 1_400_000), sample(b + 1_500_000),
+    ]));
+    // group dropped: no sched_switch sample before the wake-up; the stack is cleared by an intermediate sample
+    v.push(cs_case("dropped-nostack", "cs", 1_000_000, b, vec![sin(b), sample(b + 400_000), sout(b + 1_000_000), sin(b + 4_000_000), sample(b + 4_500_000)]));
+    v.push(cs_case("stack-cleared-by-sample", "cs", 1_000_000, b, vec![sin(b), sched(b + 100_000), sample(b + 200_000), sout(b + 1_000_000), sin(b + 4_000_000), sample(b + 4_500_000)]));
+    v.push(cs_case("stack-kernel-only", "cs", 1_000_000, b, vec![sin(b), sample(b + 300_000), sched_kernel_only(b + 1_000_000), sout(b + 1_000_000), sin(b + 4_000_000), sample(b + 4_500_000)]));
+    // repeated switch-out, sample before switch-in, thread first seen through a switch-out
+    v.push(cs_case("repeated-out", "cs", 1_000_000, b, vec![sin(b), sched(b + 1000), sout(b + 1000), sout(b + 1000), sout(b + 2_000_000), sin(b + 3_001_000), sample(b + 3_100_000)]));
+    v.push(cs_case("sample-before-in", "cs", 1_000_000, b, vec![sin(b), sched(b + 1000), sout(b + 1000), sample(b + 3_001_000), sin(b + 3_002_000), sample(b + 3_100_000)]));
+    v.push(cs_case("first-out", "cs", 1_000_000, b, vec![sched(b), sout(b), sin(b + 3_000_000), sample(b + 3_100_000)]));
+    // the cpu delta goes to the first sample of the group, zero to the rest sample
+    v.push(cs_case("group-cpu", "cs", 1_000_000, b, vec![sin(b), sched(b + 700_000), sout(b + 700_000), sin(b + 5_700_000), sample(b + 5_800_000)]));
+    // SchedSwitchAndSamples: the sched_switch sample is the switch-out
+    v.push(cs_case("sched-and-samples", "s", 1_000_000, b, vec![sample(b), sample(b + 1_000_000), sched(b + 1_500_000), sample(b + 5_500_000), sample(b + 6_500_000)]));
+    // excluded point: interval 0 (frequency above 10^9 Hz) -> division by zero at the first wake-up
+    v.push(cs_case("interval0", "csf", 2_000_000_000, b, vec![sin(b), sched(b + 1000), sout(b + 1000), sin(b + 3000)]));
+    v.push(cs_case("interval0-no-wake", "csf", 2_000_000_000, b, vec![sin(b), sample(b + 1000), sout(b + 2000)]));
+    v.push(cs_case("freq0", "csf", 0, b, vec![sin(b), sample(b + 1000)]));
+    v
 }
 
 fn main() {
